@@ -23,6 +23,28 @@ Inductive case :=
 (* default-generator runs are judged by the oracle only *)
 | COracleOnly.
 
+
+(* closeness relative to the magnitude `mag` of the case's own data, WITHOUT the floor at 1 of the shared relation in
+   Agree.v: at scale 2^-30 a wrong value is still told apart (tolerance 1e-9 of the larger of mag, |a|, |b|) *)
+Definition close_rel (mag a b : Q) : bool :=
+  Qle_bool (Qabs (a - b)) (tol * Qmax' mag (Qmax' (Qabs a) (Qabs b))).
+Definition fl_close_rel (mag m : Q) (o : fl) : bool := match o with Fin q => close_rel mag m q | _ => false end.
+Definition list_close_rel (mag : Q) (m : list Q) (o : list fl) : bool := all2 (fl_close_rel mag) m o.
+Definition vec_close_rel (mag : Q) (m : vec3 Q) (o : list fl) : bool := list_close_rel mag (vlist m) o.
+Definition vecs_close_rel (mag : Q) (m : list (vec3 Q)) (o : list (list fl)) : bool := all2 (vec_close_rel mag) m o.
+
+Definition vmag (v : vec3 Q) : Q := Qmax' (Qabs (vx v)) (Qmax' (Qabs (vy v)) (Qabs (vz v))).
+(* size of a triangle's own features: twice the square of its largest edge component bounds every component of the
+   cross product (and hence the area) *)
+Definition tri_nmag (t : tri Q) : Q :=
+  let e := Qmax' (vmag (vsub QOps (tb t) (ta t))) (vmag (vsub QOps (tc t) (ta t))) in 2 * e * e.
+Definition tri_pmag (t : tri Q) : Q := Qmax' (vmag (ta t)) (Qmax' (vmag (tb t)) (vmag (tc t))).
+Definition tris_pmag (ts : list (tri Q)) : Q := fold_left (fun m t => Qmax' m (tri_pmag t)) ts 0.
+Definition normals_close (ts : list (tri Q)) (o : list (list fl)) : bool :=
+  all2 (fun t r => vec_close_rel (tri_nmag t) (surface_normal_raw QOps t) r) ts o.
+Definition areas_close (ts : list (tri Q)) (o : list fl) : bool :=
+  all2 (fun t r => fl_close_rel (tri_nmag t) (surface_area QOps t) r) ts o.
+
 (* a normalised normal of a degenerate triangle is a row of NaN *)
 Definition opt_vec_close (m : option (vec3 Q)) (o : list fl) : bool :=
   match m with
@@ -46,9 +68,9 @@ Definition sample_decided (exact : bool) (ts : list (tri Q)) (weights : option (
 Definition check_case (c : case) : bool :=
   match c with
   | CNormals ts raw unit areas =>
-      vecs_close (surface_normals_raw QOps ts) raw &&
+      normals_close ts raw &&
       all2 opt_vec_close (surface_normals_unit QOps ts) unit &&
-      list_close (surface_areas QOps ts) areas
+      areas_close ts areas
   | CBary ts ps w => vecs_close (bary_pairs QOps ts ps) w
   | CContains rows obs =>
       bool_list_eqb (map (fun r => tri_contains QOps (r_a r) (r_b r) (r_c r) (r_d r)) rows) obs
@@ -57,7 +79,7 @@ Definition check_case (c : case) : bool :=
   | CSample exact ts weights us abs obs =>
       negb (sample_decided exact ts weights us) ||
       match sample QOps ts weights us abs, obs with
-      | Ok l, Ok (pts, fis) => nat_list_eqb (map snd l) fis && vecs_close (map fst l) pts
+      | Ok l, Ok (pts, fis) => nat_list_eqb (map snd l) fis && vecs_close_rel (tris_pmag ts) (map fst l) pts
       | Raise e, Raise e' => exn_eqb e e'
       | _, _ => false
       end
